@@ -1,0 +1,17 @@
+//go:build verif
+
+package req
+
+// VerifImpersonateTables returns the common headers, header order and pseudo-header
+// order that the named impersonation preset ("chrome", "firefox", "safari") installs.
+func VerifImpersonateTables(name string) (headers map[string]string, headerOrder, pseudoHeaderOrder []string) {
+	switch name {
+	case "chrome":
+		return chromeHeaders, chromeHeaderOrder, chromePseudoHeaderOrder
+	case "firefox":
+		return firefoxHeaders, firefoxHeaderOrder, firefoxPseudoHeaderOrder
+	case "safari":
+		return safariHeaders, safariHeaderOrder, safariPseudoHeaderOrder
+	}
+	return nil, nil, nil
+}
